@@ -6,6 +6,7 @@ import (
 	"errors"
 	"fmt"
 	"io"
+	"net/http"
 	"strings"
 
 	mcp "trpc.group/trpc-go/trpc-mcp-go"
@@ -413,6 +414,7 @@ func c15OwnSession(prefix []int, mode string) explore.Outcome {
 	res := vsched.Run(cfgFor(prefix), func() {
 		vsched.SetBranching(false)
 		notes := &hx.Log{}
+		rids := &hx.Log{}
 		sessOf := func(ctx context.Context) mcp.Session {
 			if s, ok := mcp.GetSessionFromContext(ctx); ok && s != nil {
 				return s
@@ -427,6 +429,11 @@ func c15OwnSession(prefix []int, mode string) explore.Outcome {
 			}
 			v, _ := s.GetData("c15-owner")
 			notes.Add("%v %s sid=%s owner=%v", id, stage, s.GetID(), v)
+			// the server is mounted behind an application wrapper that puts a per-request value into the
+			// HTTP request's context: every stage sees the value of the request it is processing
+			if rid, _ := ctx.Value(c15RidKey{}).(string); rid != fmt.Sprintf("rid-%v", id) {
+				rids.Add("request %v, stage %s: the context carries %q", id, stage, rid)
+			}
 		}
 		outer := func(next mcp.HandlerFunc) mcp.HandlerFunc {
 			return func(ctx context.Context, req *mcp.JSONRPCRequest) (mcp.JSONRPCMessage, error) {
@@ -462,8 +469,13 @@ func c15OwnSession(prefix []int, mode string) explore.Outcome {
 			read(ctx, "handler", int(id))
 			return mcp.NewTextResult("ok"), nil
 		})
+		mounted := r.Fab.Hosts["srv"]
+		r.Fab.Hosts["srv"] = http.HandlerFunc(func(w http.ResponseWriter, q *http.Request) {
+			mounted.ServeHTTP(w, q.WithContext(context.WithValue(q.Context(), c15RidKey{}, q.Header.Get("X-Rid"))))
+		})
 		peers := []*RawPeer{NewRawPeer(r), NewRawPeer(r)}
 		for i, p := range peers {
+			p.P.Headers["X-Rid"] = fmt.Sprintf("rid-handshake-%d", i)
 			if err := p.Handshake(); err != nil {
 				viol = append(viol, V(key(fmt.Sprintf("handshake-of-client-%d-fails", i+1)), "with pass-through middlewares configured, the handshake of client %d fails: %v", i+1, err))
 				return
@@ -472,6 +484,7 @@ func c15OwnSession(prefix []int, mode string) explore.Outcome {
 		vsched.Quiesce()
 		vsched.SetBranching(true)
 		call := func(p *RawPeer, id int) {
+			p.P.Headers["X-Rid"] = fmt.Sprintf("rid-%d", id)
 			if _, err := p.Call(fmt.Sprintf(`{"jsonrpc":"2.0","id":%d,"method":"tools/call","params":{"name":"t","arguments":{"id":%d}}}`, id, id), fmt.Sprint(id)); err != nil {
 				viol = append(viol, V(key("no-answer"), "request %d: %v", id, err))
 			}
@@ -526,10 +539,16 @@ func c15OwnSession(prefix []int, mode string) explore.Outcome {
 				viol = append(viol, V(key("stateless-session-reused"), "stateless mode: a later request was given the session %s of an earlier one", sidOf["80"]))
 			}
 		}
+		for _, x := range rids.Items() {
+			viol = append(viol, V(key("foreign-request-context"), "%s (the HTTP request that carried it had X-Rid of its own)", x))
+			break
+		}
 		obs.Add("%d notes", len(notes.Items()))
 	})
 	return finishOutcome(res, obs, viol, true)
 }
+
+type c15RidKey struct{}
 
 var c15OwnModes = []string{"sl", "slj", "ss", "sj", "sd", "ls"}
 
